@@ -383,8 +383,11 @@ def check_config(cfg, acc):
                                 # characters not valid in file names are dropped from the key:
                                 # accept the file whose name agrees on the alphanumeric part
                                 alnum = lambda t: "".join(ch for ch in t if ch.isalnum())  # noqa: E731
+                                exact = {f"trace_{c}_{k2}.npy" for k2 in res["traces"]}
+                                # (a disambiguating suffix after the sanitised key is accepted)
                                 cands = [f for f in files if f.startswith(f"trace_{c}_")
-                                         and alnum(f[len(f"trace_{c}_"):-4]) == alnum(k)]
+                                         and f not in exact
+                                         and alnum(f[len(f"trace_{c}_"):-4]).startswith(alnum(k))]
                                 if len(cands) == 1:
                                     fn = os.path.join(d, cands[0])
                             if not os.path.exists(fn) or not eq(np.load(fn), arr):
